@@ -53,9 +53,11 @@ class MDPPEnv(DPPEnv):
         reward_type: str = "minmax",
         **kwargs,
     ):
-        super().__init__(**kwargs)
         if generator is None:
             generator = MDPPGenerator(**generator_params)
+        # hand the generator to DPPEnv so that max_decaps, size and the PDN data come from it
+        # (not from a throw-away default DPPGenerator)
+        super().__init__(generator=generator, **kwargs)
         self.generator = generator
 
         assert reward_type in [
